@@ -246,6 +246,8 @@ def diff(e: E, x: str) -> E:
             return div(da, mul(C(2), sqrt(a)))
         if name == "tan":
             return mul(add(C(1), mul(tan(a), tan(a))), da)
+        if name == "abs":  # away from a == 0
+            return pw(a, da, neg(da))
         if name == "atan":
             return div(da, add(C(1), mul(a, a)))
         if name == "asin":
